@@ -144,25 +144,27 @@ Section DedupProofs.
 
   (* one event moves an id back by at most one position, and only if it inserts a new entry *)
   Definition inserts (k : known) (e : ev) : bool :=
-    match e with EvOut _ => true | EvIn id => negb (is_known k id) end.
+    match e with EvOut _ => true | EvIn id => negb (is_known k id) | EvOp _ => false | EvRestart => false end.
 
   Lemma dstep_pos k e id n :
+    is_restart e = false ->
     pos k id = Some n -> (S n < cap)%nat ->
     exists n', pos (fst (dstep cap k e)) id = Some n' /\ (n' <= S n)%nat /\
                (inserts k e = false -> n' = n).
   Proof.
-    intros Hp Hn.
+    intros Hr Hp Hn.
     assert (Hrem : forall j, exists n', pos (remember cap k j) id = Some n' /\ (n' <= S n)%nat).
     { intros j. unfold remember.
       destruct (Z.eqb_spec id j) as [->|Hne].
       - exists O. split; [|lia]. apply pos_firstn; [|lia]. cbn [pos]. now rewrite Z.eqb_refl.
       - exists (S n). split; [|lia]. apply pos_firstn; [|lia]. cbn [pos].
         destruct (Z.eqb_spec id j); [contradiction|]. now rewrite Hp. }
-    destruct e as [j|j]; cbn [dstep inserts].
+    destruct e as [j|j|o|]; cbn [dstep inserts]; [| | |discriminate Hr].
     - destruct (Hrem j) as (n' & H1 & H2). exists n'. cbn [fst]. repeat split; auto. discriminate.
     - destruct (is_known k j) eqn:K; cbn [fst negb].
       + exists n. repeat split; auto.
       + destruct (Hrem j) as (n' & H1 & H2). exists n'. repeat split; auto. discriminate.
+    - exists n. cbn [fst]. repeat split; auto.
   Qed.
 
   Fixpoint count_inserts (k : known) (es : list ev) : nat :=
@@ -175,34 +177,39 @@ Section DedupProofs.
   Proof. cbn [drun]. destruct (dstep cap k e) as [k1 b]. cbn [fst]. destruct (drun cap k1 r) as [k2 bs]. reflexivity. Qed.
 
   Lemma drun_pos es : forall k id n,
+    no_restart es = true ->
     pos k id = Some n -> (n + count_inserts k es < cap)%nat ->
     exists n', pos (fst (drun cap k es)) id = Some n' /\ (n' <= n + count_inserts k es)%nat.
   Proof.
-    induction es as [|e r IH]; intros k id n Hp Hc.
+    induction es as [|e r IH]; intros k id n Hnr Hp Hc.
     - exists n. cbn. split; [assumption|lia].
     - cbn [count_inserts] in Hc. rewrite drun_fst.
+      cbn [no_restart forallb] in Hnr. apply andb_prop in Hnr as [He Hnr].
+      apply negb_true_iff in He. fold (no_restart r) in Hnr.
       destruct (inserts k e) eqn:I.
-      + destruct (dstep_pos k e id n Hp ltac:(lia)) as (n1 & H1 & H2 & _).
-        destruct (IH _ id n1 H1 ltac:(lia)) as (n' & H3 & H4).
+      + destruct (dstep_pos k e id n He Hp ltac:(lia)) as (n1 & H1 & H2 & _).
+        destruct (IH _ id n1 Hnr H1 ltac:(lia)) as (n' & H3 & H4).
         exists n'. split; [assumption|]. cbn [count_inserts]. rewrite I. lia.
       + assert (Hsame : fst (dstep cap k e) = k).
-        { destruct e as [j|j]; cbn [inserts] in I; [discriminate|].
-          cbn [dstep]. destruct (is_known k j); [reflexivity|discriminate]. }
+        { destruct e as [j|j|o|]; cbn [inserts] in I; [discriminate| | |discriminate He].
+          - cbn [dstep]. destruct (is_known k j); [reflexivity|discriminate].
+          - reflexivity. }
         rewrite Hsame in *.
-        destruct (IH k id n Hp ltac:(lia)) as (n' & H3 & H4).
+        destruct (IH k id n Hnr Hp ltac:(lia)) as (n' & H3 & H4).
         exists n'. split; [assumption|]. cbn [count_inserts]. rewrite I, Hsame. lia.
   Qed.
 
   (* An own message id (registered by add_outbound_message before the first transmission) is not
      acted on when it comes back, as long as fewer than cap other entries were inserted since. *)
   Theorem own_id_ignored k id es :
+    no_restart es = true ->
     (count_inserts (remember cap k id) es < cap)%nat ->
     snd (dstep cap (fst (drun cap (remember cap k id) es)) (EvIn id)) = false.
   Proof.
-    intros H.
+    intros Hnr H.
     assert (Hp : pos (remember cap k id) id = Some O).
     { unfold remember. destruct cap; [lia|]. cbn [firstn pos]. now rewrite Z.eqb_refl. }
-    destruct (drun_pos es _ id O Hp ltac:(lia)) as (n' & H1 & _).
+    destruct (drun_pos es _ id O Hnr Hp ltac:(lia)) as (n' & H1 & _).
     cbn [dstep]. apply pos_some_in in H1. apply is_known_In in H1. now rewrite H1.
   Qed.
 
@@ -210,18 +217,32 @@ Section DedupProofs.
 
   Theorem acted_at_most_once k id es :
     is_known k id = false ->
+    no_restart es = true ->
     (count_inserts (remember cap k id) es < cap)%nat ->
     dstep cap k (EvIn id) = (remember cap k id, true) /\
     snd (dstep cap (fst (drun cap (remember cap k id) es)) (EvIn id)) = false.
   Proof.
-    intros K H. split.
+    intros K Hnr H. split.
     - cbn [dstep]. now rewrite K.
     - now apply own_id_ignored.
   Qed.
 
   Lemma memory_bounded k e : (length (fst (dstep cap k e)) <= Nat.max cap (length k))%nat.
   Proof.
-    destruct e as [j|j]; cbn [dstep]; [|destruct (is_known k j)]; cbn [fst]; unfold remember;
+    destruct e as [j|j|o|]; cbn [dstep]; [|destruct (is_known k j)| |]; cbn [fst]; unfold remember;
       rewrite ?firstn_length; cbn [length]; lia.
+  Qed.
+
+  (* no public operation of WSDiscovery touches the memory, none hands a message to the handler *)
+  Lemma api_op_keeps_memory k o : dstep cap k (EvOp o) = (k, false).
+  Proof. reflexivity. Qed.
+
+  (* public operations are transparent: a run with the operation events removed ends in the same memory *)
+  Definition is_op (e : ev) : bool := match e with EvOp _ => true | _ => false end.
+  Lemma drun_without_ops es : forall k,
+    fst (drun cap k es) = fst (drun cap k (filter (fun e => negb (is_op e)) es)).
+  Proof.
+    induction es as [|e r IH]; intros k; [reflexivity|].
+    destruct e as [j|j|o|]; cbn [filter is_op negb]; rewrite ?drun_fst; cbn [dstep fst]; try apply IH.
   Qed.
 End DedupProofs.
